@@ -78,7 +78,7 @@ void Broker::finish_handshake(int conn, const ref::Packet& p) {
     bool natural = sessions.count(cid) > 0 && !p.clean_start;
     int pol = handshakes_ok < int(cfg.sp_policy.size()) ? cfg.sp_policy[handshakes_ok] : -1;
     bool sp = natural && pol != 0;
-    if (!sp) { sessions.erase(cid); }
+    if (!sp) { auto it = sessions.find(cid); if (it != sessions.end()) { for (auto& m : it->second.out) lost_out.push_back(m); sessions.erase(it); } }
     Session& s = sessions[cid]; s.client_id = cid;
     if (!cfg.auth_method.empty()) { bool has = false; for (auto& q : p.props) if (q.id == 0x15) has = true;
         if (has) { props.push_back(ref::pstr(0x15, cfg.auth_wrong_method ? cfg.auth_method + "-x" : cfg.auth_method)); props.push_back(ref::pstr(0x16, "final")); } }
